@@ -139,7 +139,7 @@ func c15Eval(cs c15Case) (*lib.Violation, string) {
 		db, err = recovery.NewDatabaseRecovery(cfg).LoadDatabaseWithFallback(mainP, persP)
 	}()
 	sleeps := vtime.Sleeps()
-	attempts := h.Attempts["ReadFile "+mainP]
+	attempts := h.Attempts["ReadFile "+mainP] + h.Attempts["Open "+mainP] // whichever way the loader reads the file
 	obs := fmt.Sprintf("attempts=%d sleeps=%v err=%v", attempts, sleeps, err != nil)
 	mk := func(key, what string) (*lib.Violation, string) {
 		return &lib.Violation{Key: key, What: what, Case: cs, Observed: obs}, obs
